@@ -392,9 +392,15 @@ class MCNP_Problem:
         surfaces = sorted(surfaces)
         materials = sorted(materials)
         transforms = sorted(transforms)
-        self._surfaces = Surfaces(surfaces)
-        self._materials = Materials(materials)
-        self._transforms = Transforms(transforms)
+        # build every collection before replacing any, so that a numbering conflict changes nothing
+        new_surfaces = Surfaces(surfaces, problem=self)
+        new_materials = Materials(materials, problem=self)
+        new_transforms = Transforms(transforms, problem=self)
+        self._surfaces = new_surfaces
+        self._materials = new_materials
+        self._transforms = new_transforms
+        for obj in itertools.chain(surfaces, materials, transforms):
+            obj.link_to_problem(self)
         self._data_inputs = sorted(set(self._data_inputs + materials + transforms))
 
     def write_to_file(self, new_problem, overwrite=False):
